@@ -29,6 +29,8 @@ Pool == <<
   Ok_("parse_dtls_plaintext_record", NoArgs, EncDtlsRecord(22, 65277, 1, <<0, 0, 5>>, EncDtlsHs(14, 0, 3, 0, 0, <<>>))),
   Ok_("parse_dtls_plaintext_record", NoArgs, EncDtlsRecord(22, 65277, 1, <<0, 0, 5>>, EncDtlsHs(11, 30, 3, 4, 2, <<7, 7>>))),
   Ok_("parse_dtls_message_handshake", NoArgs, EncDtlsHs(16, 2, 1, 0, 2, <<8, 9>>)),
+  Ok_("parse_dtls_message_handshake", NoArgs, EncDtlsHs(11, 200000, 1, 0, 65536, Fill(3, 65536))),   \* a fragment of 2^16 bytes
+  Ok_("parse_dtls_message_handshake", NoArgs, EncDtlsHs(16, 70000, 2, 0, 70000, Fill(4, 70000))),     \* a whole message of 70000 bytes
   Ok_("parse_tls_message_handshake", NoArgs, CH),
   Ok_("parse_tls_message_handshake", NoArgs, CERT),
   Ok_("parse_tls_message_handshake", NoArgs, <<0, 0, 0, 0>>),
